@@ -339,7 +339,8 @@ struct SockEngine : Engine {
             for (auto& in : simnet::inbound) in.at += start;
             Tins::PDU* resp = 0; std::string exc;
             bool tins_exc = false;
-            try { resp = sender.send_recv(*req, Tins::NetworkInterface::from_index(1)); }
+            // both overloads: explicit interface, or the sender's default interface (set at construction, or through the setter)
+            try { if (q.ipid % 3 == 0) resp = sender.send_recv(*req, Tins::NetworkInterface::from_index(1)); else { if (q.ipid % 3 == 1) sender.default_interface(Tins::NetworkInterface::from_index(1)); resp = sender.send_recv(*req); st.inc("probe.default_interface_overload"); } }
             catch (Tins::exception_base& e) { exc = demangle(typeid(e).name()); tins_exc = true; }
             catch (std::exception& e) { exc = demangle(typeid(e).name()); }
             int64_t end = sim::g_sim_now_us; simnet::active = false; sim::g_sim_now_us = -1;
